@@ -14,7 +14,7 @@ RULE = ('differential against an independent implementation (hashlib/hmac + pyth
         '(c) the MODP primes compared with RFC 3526 recomputed from its formula (2^n - 2^(n-64) - 1 + 2^64*(floor(2^(n-130)*pi)+c), integer '
         'Machin pi) and generator 2; ECP public values compared with scalar multiplication on the RFC 5903 curve constants; (d) real '
         'MODPDH/ECDH objects: public value = fixed-width g^x, shared secret = fixed-width peer^x for random peers AND a directed search for '
-        'peer values whose secret has a leading zero octet; (e) IkeSa.generate_ike_sa_key_material / generate_child_sa_key_material called '
+        'peer values whose secret has a leading zero octet, and key pairs generated until the daemon\'s own MODP public value has one; (e) IkeSa.generate_ike_sa_key_material / generate_child_sa_key_material called '
         'for every PRF x INTEG x AES key length with random nonces of 16..256 octets, initial and rekey (old SK_d, old PRF); (f) end to end: '
         'in simulated histories (the two sides list the CHILD algorithms in opposite preference orders; plus exchanges that cross each other) every SKEYSEED-derived keyring and every key inside a NEWSA request equals what the reference derives '
         'from the wire and the tapped DH private value (initial, piggy-backed CHILD, CREATE_CHILD with and without PFS, rekeyed IKE_SA); (g) the same monitor over histories in which IKE_SA_INIT, IKE_SA rekeys and PFS CHILD_SA exchanges are first refused with INVALID_KE_PAYLOAD and retried with another group (MODP->MODP, MODP->ECP, ECP->MODP, ECP->ECP). '
@@ -123,6 +123,22 @@ def check_dh_objects(ck, rng):
             ck.count('dh.secret_compared_direct')
             if bytes(o.shared_secret) != want:
                 ck.violation(f'dh-shared-secret-differs:g{g}:random-peer', {'got_len': len(o.shared_secret), 'want_len': len(want)})
+        # directed: the daemon's OWN public value with a leading zero octet (1 key pair in 256): still the fixed-width encoding of g^x
+        if g in (MODP if ck.thorough() else [14]):
+            found = 0
+            for k_ in range(4000 if g == 14 else 1200):
+                o = cls(T.DhId(g))
+                ck.count('dh.own_public_values_generated')
+                if len(o.public_key) != groups.dh_len(g):
+                    ck.violation(f'dh-public-value-is-not-the-fixed-width-encoding:g{g}', {'got_len': len(o.public_key), 'want_len': groups.dh_len(g)})
+                    break
+                if o.public_key[0] == 0:
+                    found += 1
+                    ck.count('dh.own_public_values_with_a_leading_zero_octet')
+                    if bytes(o.public_key) != groups.dh_public(g, o._vf['priv']):
+                        ck.violation(f'dh-public-value-differs:g{g}:leading-zero-octet', {})
+                    if found >= 3:
+                        break
         # directed: a secret with a leading zero octet
         o = cls(T.DhId(g))
         tries = 1500 if g not in (17, 18) else 700
@@ -298,6 +314,7 @@ def verdict(ck):
     ck.floor('crossing-exchange walks', c['crossing.walks'], 40)
     ck.floor('prf+ lengths compared', c['prfplus.lengths_compared'], 3000)
     ck.floor('MODP primes compared with the RFC 3526 formula', c['constants.modp_compared'], 5)
+    ck.floor('own MODP public values with a leading zero octet', c['dh.own_public_values_with_a_leading_zero_octet'], 1)
     ck.floor('secrets with a leading zero octet fed to compute_secret', c['dh.leading_zero_secrets'], 3)
     ck.floor('direct IKE key schedules', c['schedule.direct_ike'], 50)
     ck.floor('direct rekey key schedules', c['schedule.direct_ike_rekey'], 50)
